@@ -774,6 +774,23 @@ def magic_rule(ctx):
             why = "the comparison happens before the header is read"
             continue
         cmp_ok = True
+        # the rejection itself must not be able to panic: the header bytes of a foreign stream are
+        # arbitrary (not UTF-8, not of any particular form), so nothing on the way to the Err may
+        # unwrap a result computed from them
+        risky = []
+        for rb in sorted(r):
+            rt = fa.term(rb)
+            if rt["k"] != "call":
+                continue
+            rn = {strip_generics(x).rsplit("::", 1)[-1] for x in callee_paths(rt)}
+            if rn & {"unwrap", "expect", "unwrap_unchecked", "index", "from_utf8_unchecked"} and \
+                    not (rt.get("sp") or {}).get("exp"):
+                risky.append("%s at %s" % (sorted(rn)[0], fa.loc(rb)))
+        ctx.ob("MAGIC", "%s|rejection-cannot-panic" % P_RC, not risky, fa.loc(b),
+               "the path from a header mismatch to the error has no unwrap / index of its own" if not risky else
+               "rejecting a foreign header goes through %s: a stream whose first bytes are not of the "
+               "expected form (not UTF-8, ..) makes Dictionary::read panic instead of returning an error"
+               % ", ".join(risky))
     ctx.ob("MAGIC", "%s|compare-dominates-decode" % P_RC, cmp_ok, fa.loc(db),
            "decoding is dominated by the branch that found the header equal to MODEL_MAGIC; "
            "a mismatch reaches only Err" if cmp_ok else
